@@ -1188,7 +1188,12 @@ def run(chk, cases=None):
                 "steps and width below the number of complete sequences of that depth (pruning happened). extreme-magnitude "
                 "stream: logits scaled by 100..1000, rows shifted by +-100..1000, one logit dominating by 100..1500 nats, in "
                 "float32 and float64 (tolerance and tie margin widened to the rounding bound of the sums, see _tol_margin); "
-                "with eos unset and all logits finite the number of finite-score slots is also checked directly")
+                "with eos unset and all logits finite the number of finite-score slots is also checked directly. "
+                "entry-layout-history stream: the same logical inputs through torch.jit.script(BeamSearch) over a scripted LM, keyword "
+                "arguments, initial_state None/{}/omitted, an LM and caller handing over non-contiguous tensors, and a module object used "
+                "before (two identical calls must agree bit for bit) - same model term. staggered-batch stream: eos-eager and eos-averse "
+                "initial states in one batch (an element is frozen and padded strictly before another), eos mostly != 0, default pad. "
+                "About half of the advance cases pass non-contiguous views / float32 / keyword arguments; arguments must stay unchanged")
     chk.assumptions += [
         "the test LM's rows of log-probabilities are torch's float64 log_softmax of its logits, handed to the model exactly; "
         "sums are compared with tolerance 1e-9 (regime T), decisions kept at margin 1e-6",
